@@ -106,7 +106,8 @@ class Simulator:
             loopcount += 1
             anyChange = False
             
-            if (loopcount > 1000):
+            # a deep acyclic netlist can need as many passes as it has leaves
+            if (loopcount > max(1000, 2*len(self.propagatables)+2)):
                 raise Exception('Excessive loop count in topological count')
                 
             for i in range(len(self.propagatables)):
